@@ -133,7 +133,14 @@ Definition qres_eqb (a b : list rgb * list (list N)) : bool :=
 Inductive c13_case :=
 | KD (pal qs : list rgb) (impl : list (ires (N * rgb)))
 | OCT (ops : list oc_op) (impl : ires (list oc_obs))
-| QNT (im : img) (k : N) (dither : bool) (impl : ires (list rgb * list (list N))).
+| QNT (im : img) (k : N) (dither : bool) (impl : ires (list rgb * list (list N)))
+| RND (seed : N) (impl : list N).          (* common::Rnd::with_seed(seed), successive next_u32() *)
+
+Fixpoint rnd_stream (n : nat) (st : N) : list N :=
+  match n with
+  | O => []
+  | S n' => let '(v, st') := next_u32 st in v :: rnd_stream n' st'
+  end.
 
 Definition c13_check (c : c13_case) : bool * bool :=
   match c with
@@ -148,6 +155,10 @@ Definition c13_check (c : c13_case) : bool * bool :=
        | INone => (img_height im =? 0) || (img_width im =? 0)   (* only an empty image has no palette *)
        | _ => false
        end)
+  | RND seed impl =>
+      (* the generator only matters through the sampling it drives: a different stream is a
+         broken correspondence, not by itself a violation *)
+      (nlist_eqb (rnd_stream (length impl) seed) impl, true)
   end.
 
 Definition c13_report := report c13_check.
